@@ -139,6 +139,11 @@ class MPSBackendImpl:
             else optimat.eye_permutation(self.qubit_count)
         )
 
+        # The drives follow the same (permuted) site order as the interaction matrix.
+        self.omega = self.omega[:, self.qubit_permutation]
+        self.delta = self.delta[:, self.qubit_permutation]
+        self.phi = self.phi[:, self.qubit_permutation]
+
         self.hamiltonian_type = pulser_data.hamiltonian_type
         self.time = time.time()
 
@@ -218,7 +223,9 @@ class MPSBackendImpl:
         # has_state_preparation_error
         if self.pulser_data.state_prep_error > 0.0:
             bad_atoms = self.pulser_data.bad_atoms
-            self.well_prepared_qubits_filter = torch.logical_not(torch.tensor(bad_atoms))
+            self.well_prepared_qubits_filter = torch.logical_not(
+                torch.tensor(bad_atoms)
+            )[self.qubit_permutation]
         else:
             self.well_prepared_qubits_filter = None
         logging.getLogger("emulators").debug(
